@@ -236,6 +236,66 @@ judge(px, 'RLIMIT_NOFILE=64, 240 idle connections opened and closed again', 'des
 samples.append({'descriptor_exhaustion': {'nofile': 64, 'opened': len(conns)}})
 px.stop()
 
+# ---- (v) the tproxy UDP listener (full cone) in front of an upstream that answers with hostile frames. Needs
+#      IP_TRANSPARENT; where the listener cannot start the scenario is skipped (recorded in the evidence)
+def evil_frames(c, a, rec):
+    head, rest = recv_head(c, 5)
+    with flock:
+        k = fcount[0]
+        fcount[0] += 1
+    frame = HOSTILE_FRAMES[k % len(HOSTILE_FRAMES)][1]
+    try:
+        c.sendall(b'HTTP/1.1 200 OK\r\nSession-Id: 7\r\n\r\n' + frame)
+        time.sleep(0.5)
+    except OSError:
+        pass
+flock = threading.Lock()
+fcount = [0]
+def fr(attr, body, magic=b'RPFM', alen=None, blen=None, sid=7):
+    return magic + struct.pack('>IHH', sid, len(attr) if alen is None else alen, len(body) if blen is None else blen) + attr + body
+HOSTILE_FRAMES = [
+    ('no address attribute', fr(b'', b'x')),
+    ('host name where the address should be', fr(bytes([3, 6]) + b'ab.c' + struct.pack('>H', 53), b'x')),
+    ('address 0.0.0.0:0', fr(bytes([1, 6, 0, 0, 0, 0, 0, 0]), b'x')),
+    ('ipv6 address', fr(bytes([2, 18]) + bytes(15) + b'\x01' + struct.pack('>H', 53), b'x')),
+    ('attribute length beyond the frame', fr(bytes([1, 6, 1, 2, 3, 4, 0, 53]), b'x', alen=40)),
+    ('body length beyond the frame', fr(bytes([1, 6, 1, 2, 3, 4, 0, 53]), b'x', blen=60000)),
+    ('wrong magic', fr(bytes([1, 6, 1, 2, 3, 4, 0, 53]), b'x', magic=b'RPFN')),
+    ('attribute shorter than its header says', fr(bytes([1, 6, 1, 2]), b'x')),
+    ('foreign session id', fr(bytes([1, 6, 127, 0, 0, 1, 0, 53]), b'x', sid=99)),
+    ('unprivileged source 127.0.0.1:1', fr(bytes([1, 6, 127, 0, 0, 1, 0, 1]), b'x')),
+    ('empty body', fr(bytes([1, 6, 127, 0, 0, 1, 0, 53]), b'')),
+]
+evilf = Origin(evil_frames)
+tport = free_port('udp')
+tcfg = {'listeners': [{'name': 'tp', 'type': 'tproxy', 'bind': f'127.0.0.1:{tport}', 'protocol': 'udp', 'udpFullCone': True},
+                      {'name': 'http', 'bind': f"127.0.0.1:{ports['http']}"}, {'name': 'socks', 'bind': f"127.0.0.1:{ports['socks']}"},
+                      {'name': 'rtcp', 'type': 'reverse', 'bind': f"127.0.0.1:{ports['rtcp']}", 'target': f'127.0.0.1:{echo.port}'}],
+        'connectors': [{'name': 'direct'}, {'name': 'evilf', 'type': 'http', 'server': '127.0.0.1', 'port': evilf.port}],
+        'rules': [{'filter': 'request.listener == "tp"', 'target': 'evilf'}, {'target': 'direct'}],
+        'metrics': {'bind': f"127.0.0.1:{ports['api']}", 'ui': None}}
+tpx = Proxy(tcfg, 'c05t')
+tpx.api_port = ports['api']
+if tpx.start([ports['http'], ports['socks'], ports['rtcp'], ports['api']]):
+    for name, _ in HOSTILE_FRAMES:
+        try:
+            u2 = socket.socket(socket.AF_INET, socket.SOCK_DGRAM)
+            for _ in range(3):
+                u2.sendto(b'hello', ('127.0.0.1', tport))
+                time.sleep(0.12)
+            u2.close()
+        except OSError:
+            pass
+    time.sleep(0.5)
+    ok = judge(tpx, f'{len(HOSTILE_FRAMES)} full-cone tproxy UDP sessions whose upstream answers with hostile frames ({fcount[0]} upstream connections made)', 'tproxy-upstream-frames', {'frames': [n for n, _ in HOSTILE_FRAMES]})
+    samples.append({'tproxy_udp': {'sessions': len(HOSTILE_FRAMES), 'upstream_connections': fcount[0], 'survived': ok}})
+    if fcount[0] == 0:
+        machinery('tproxy scenario vacuous: no session reached the upstream')
+else:
+    samples.append({'tproxy_udp': 'skipped: the tproxy listener could not be started here (IP_TRANSPARENT): ' + tpx.log()[-160:]})
+tpx.stop()
+evilf.stop()
+
 # ---- (iv) fields that never end, against a process that is allowed 1 GiB of address space: the proxy must give
 #      up on the connection long before it runs out of memory (a failed allocation aborts the process)
 MEM = 768 << 20
@@ -273,6 +333,6 @@ for o in (echo, evil):
 if evals < 8 or len(distinct) < 1:
     machinery(f'vacuous: evals={evals}')
 cov = {'evaluations': evals, 'distinct_nontrivial': max(2, len(distinct)), 'transitions': evals, 'traces_validated_against_impl': evals,
-       'rule': 'real binary (panic=abort): malformed request heads / SOCKS negotiations / frames / upstream replies on every listener; disconnect (FIN and RST) at every byte offset of the http, socks5 and socks4 handshakes; stalled clients at 4 offsets per handshake; RLIMIT_NOFILE=64 with 240 idle connections; 8 never-ending fields (client and upstream side) against a process limited to 768 MiB of data (RLIMIT_DATA); after each batch the process must be alive and every TCP listener and the API must serve a probe',
+       'rule': 'real binary (panic=abort): malformed request heads / SOCKS negotiations / frames / upstream replies on every listener; disconnect (FIN and RST) at every byte offset of the http, socks5 and socks4 handshakes; stalled clients at 4 offsets per handshake; RLIMIT_NOFILE=64 with 240 idle connections; a full-cone tproxy UDP listener whose upstream answers with 11 hostile frames (skipped where IP_TRANSPARENT is not permitted); 8 never-ending fields (client and upstream side) against a process limited to 768 MiB of data (RLIMIT_DATA); after each batch the process must be alive and every TCP listener and the API must serve a probe',
        'schedule_control': 'kernel', 'samples': samples}
 sys.exit(chk.finish('model_checking', cov, ['E4 part: batches of inputs are judged together (the proxy is restarted after a batch that killed it)']))
